@@ -332,6 +332,21 @@ Definition lex_cmp (c : comparison) (k : comparison) : comparison :=
 Definition lex_bytes : list val -> list val -> comparison :=
   lex_by (fun a b => match a, b with VN x, VN y => N.compare x y | _, _ => Eq end).
 
+(** What [#[derive(PartialOrd, Ord)]] compares first on an enum: the DISCRIMINANT VALUE of the variant,
+    not its position in the declaration.  For a derived enum the model knows the discriminants exactly
+    when they are the wire tags ([use_discriminant = true]: [sum_tags k] are the discriminants; without
+    explicit discriminants tags = discriminants = ordinals).  The built-in sums ([Option], [Result],
+    [IpAddr], [SocketAddr]) have no explicit discriminants and are ordered by declaration order, whatever
+    their wire tags are ([Result]: Ok < Err, tags 1, 0).
+    The second comparison, by ordinal, never decides for a well-formed type ([wf] demands distinct tags
+    and as many tags as variants, so two ordinals of one rank are equal - [OrderFacts.cmp_val_enum_tags]);
+    it makes [cmp_val] an order on the values of every type, with no side condition. *)
+Definition sum_rank (k : sum_kind) (i : N) : N :=
+  match k with
+  | KEnum _ _ tags => nth (N.to_nat i) tags i
+  | _ => i
+  end.
+
 Fixpoint cmp_val (t : ty) (a b : val) {struct t} : comparison :=
   match t with
   | TPrim p =>
@@ -355,10 +370,11 @@ Fixpoint cmp_val (t : ty) (a b : val) {struct t} : comparison :=
       | VL la, VL lb => lex2 (fun t' x y => cmp_val t' x y) ts la lb
       | _, _ => Eq
       end
-  | TSum _ vs =>
+  | TSum k vs =>
       match a, b with
       | VV i x, VV j y =>
-          lex_cmp (N.compare i j) (nth_or (fun t' => cmp_val t' x y) Eq vs (N.to_nat i))
+          lex_cmp (N.compare (sum_rank k i) (sum_rank k j))
+            (lex_cmp (N.compare i j) (nth_or (fun t' => cmp_val t' x y) Eq vs (N.to_nat i)))
       | _, _ => Eq
       end
   | TWrap _ t' => cmp_val t' a b
